@@ -906,4 +906,9 @@ impl Session {
     pub fn verif_round(&mut self) -> &mut usize {
         &mut self.round
     }
+
+    /// Has file extraction been started?
+    pub fn verif_files_extracted(&self) -> bool {
+        self.files_extracted
+    }
 }
